@@ -14,6 +14,7 @@ import (
 	"sort"
 	"strconv"
 	"strings"
+	"sync"
 	"time"
 
 	"github.com/go-python/gpython/py"
@@ -30,6 +31,7 @@ type Session struct {
 }
 
 var sessions = map[py.Context]*Session{}
+var sessionsMu sync.Mutex // mode B runs sessions on parallel goroutines
 
 func init() {
 	py.RegisterModule(&py.ModuleImpl{
@@ -45,6 +47,8 @@ func init() {
 
 func sessionOf(self py.Object) *Session {
 	if m, ok := self.(*py.Module); ok {
+		sessionsMu.Lock()
+		defer sessionsMu.Unlock()
 		return sessions[m.Context]
 	}
 	return nil
@@ -121,7 +125,9 @@ func normExc(n string) string {
 // session so that simlog's host functions find it.
 func Attach(ctx py.Context, main *py.Module) *Session {
 	s := &Session{Ctx: ctx, Main: main, Max: 5000}
+	sessionsMu.Lock()
 	sessions[ctx] = s
+	sessionsMu.Unlock()
 	return s
 }
 
@@ -129,7 +135,9 @@ func Attach(ctx py.Context, main *py.Module) *Session {
 func NewSession(sysPaths []string) (*Session, error) {
 	ctx := py.NewContext(py.ContextOpts{SysArgs: []string{"sim"}, SysPaths: sysPaths})
 	s := &Session{Ctx: ctx, Max: 5000}
+	sessionsMu.Lock()
 	sessions[ctx] = s
+	sessionsMu.Unlock()
 	m, err := ctx.Store().NewModule(ctx, &py.ModuleImpl{Info: py.ModuleInfo{Name: "__main__", FileDesc: "<main>"}})
 	if err != nil {
 		return nil, err
@@ -140,7 +148,9 @@ func NewSession(sysPaths []string) (*Session, error) {
 
 // Close releases the session.
 func (s *Session) Close() {
+	sessionsMu.Lock()
 	delete(sessions, s.Ctx)
+	sessionsMu.Unlock()
 	s.Ctx.Close()
 }
 
